@@ -18,6 +18,7 @@ from vlib.refcodec import CodecError
 
 LEVEL = "fault_enumeration"
 FLOOR = {"quick": 2000, "thorough": 30000}
+VALGRIND_SAMPLE = {"quick": 12, "thorough": 120}     # cut points per stream that are also read under valgrind memcheck (NDEBUG build)
 
 
 def judge_cut(ctx, m, proto, vals, ref_docs, data, cut, r: rt.Result, ep_name, what):
@@ -34,6 +35,8 @@ def judge_cut(ctx, m, proto, vals, ref_docs, data, cut, r: rt.Result, ep_name, w
         sig, msg = "mistaken-for-complete:%s:%s" % (ep_name, cut_class(cut)), "reader completed normally on a stream cut at byte %d of %d" % (cut, len(data))
     elif "Sanitizer" in r.stderr or "runtime error:" in r.stderr:
         sig, msg = "sanitizer:%s:%s" % (ep_name, cut_class(cut)), "sanitizer report: %s" % r.stderr[-500:]
+    elif r.rc == 97 or "Invalid read of size" in r.stderr or "Invalid write of size" in r.stderr or "uninitialised value" in r.stderr:
+        sig, msg = "valgrind:%s:%s" % (ep_name, cut_class(cut)), "valgrind memcheck report: %s" % r.stderr[-700:]
     else:
         # delivered values must be a prefix of what was written
         try:
@@ -79,8 +82,11 @@ def run_stream(ctx, m, proto, vals, data, cuts, endpoints, tag):
     c = m.codec
     ref_docs = [json.loads(l) for l in c.ndjson_lines(proto, m.schema(proto.name), vals)]
 
+    vg_cuts = set(sorted(cuts)[:: max(1, len(cuts) // VALGRIND_SAMPLE[ctx.tier])]) if any(getattr(e, "flavor", "") == "ndebug" for e in endpoints) else set()
+    vg_ep = rt.CppEndpoint(m, "valgrind")
+
     def one(cut):
-        for ep in endpoints:
+        for ep in endpoints + ([vg_ep] if cut in vg_cuts else []):
             r = ep.copy(proto.name, "bin", "ndjson", data[:cut])
             ctx.ev()
             ctx.count("cut." + ep.name)
